@@ -97,7 +97,7 @@ def main():
     bmetas = sorted(glob.glob(ROOT + "/benign_seeded/*/meta.json"))
     if bmetas:
         out += ["### D.2 Behaviour-preserving changes written by independent sub-agents (`/verif/benign_seeded/<ID>-bN/`)", "",
-                "Five rounds (20, 20, 20, 20, 10). Each sub-agent saw only the text of one property and was asked for a realistic, deliberately visible change of",
+                "Six rounds (20, 20, 20, 20, 10, 14). Each sub-agent saw only the text of one property and was asked for a realistic, deliberately visible change of",
                 "*unspecified* behaviour under which the statement, read literally, still holds. Every patch was applied in the lab and",
                 "ALL 20 checks were run (quick). `first run` records what happened before any correction of the machinery; `review` is my",
                 "verdict on whether the change really preserves the property (an alarm on a change that does not is a true positive).", "",
